@@ -5,7 +5,7 @@
 //! `F <json>` for a case that does not conform, `DONE <cases> <failed>` at the end.
 use serde_json::Value;
 use std::io::{BufRead, Write};
-use tdverif::cells::{Elem, Elem40, Tok, Zst, A128, B1, B3, K32, W1K, W24, W4K, W64K, W8, W80, Z0};
+use tdverif::cells::{Elem, Elem40, Elem4K, Elem8, Tok, Zst, A128, B1, B3, K32, W1K, W24, W4K, W64K, W8, W80, Z0};
 use tdverif::util::silence_panics;
 
 fn main() {
@@ -71,6 +71,8 @@ fn real_main() {
                     "w8" => tdverif::hist::run_case::<W8>(steps, cap, &mut events),
                     "w24" => tdverif::hist::run_case::<W24>(steps, cap, &mut events),
                     "elem40" => tdverif::hist::run_case::<Elem40>(steps, cap, &mut events),
+                    "elem8" => tdverif::hist::run_case::<Elem8>(steps, cap, &mut events),
+                    "elem4k" => tdverif::hist::run_case::<Elem4K>(steps, cap, &mut events),
                     e => panic!("unknown elem {e}"),
                 };
                 if let Some(lf) = logfile.as_mut() {
@@ -95,6 +97,7 @@ fn real_main() {
                     "w8" => tdverif::acc::run_case::<W8>(&case, &mut events),
                     "w24" => tdverif::acc::run_case::<W24>(&case, &mut events),
                     "elem40" => tdverif::acc::run_case::<Elem40>(&case, &mut events),
+                    "elem8" => tdverif::acc::run_case::<Elem8>(&case, &mut events),
                     "z0" => tdverif::acc::run_case::<Z0>(&case, &mut events),
                     "a128" => tdverif::acc::run_case::<A128>(&case, &mut events),
                     "zst" => tdverif::acc::run_case::<Zst>(&case, &mut events),
